@@ -44,7 +44,24 @@ func reasonOf(a Atom, be *BigEval) (kind, text string) {
 		return "nil", desc(x)
 	}
 	if g, ok := parseGuard(a, be); ok {
-		return "guard", fmt.Sprintf("%s|%s|%s", g.Subject, g.Kind, g.Rel)
+		subj, rel := g.Subject, g.Rel
+		// both operands equally subject-like (two message fields, two indices): name the guard by the
+		// lexicographically smaller operand so that `a < b` and `b > a` are the same reason
+		other := ""
+		switch g.Kind {
+		case "int":
+			if !g.BoundA.isConst() {
+				other = g.BoundA.String()
+			}
+		case "big":
+			if n := g.Bound.opaqueName(); n != "" {
+				other = n
+			}
+		}
+		if other != "" && guardRank(other) == guardRank(subj) && other < subj {
+			subj, rel = other, relFlip[rel]
+		}
+		return "guard", fmt.Sprintf("%s|%s|%s", subj, g.Kind, rel)
 	}
 	if c, _ := callAndResult(a.V); c != nil {
 		return "call", fmt.Sprintf("%s is %s", calleeName(c), a.Want)
@@ -77,11 +94,15 @@ type rejReason struct {
 
 // collectRejections enumerates the rejecting branches of fn and, through module-internal callees whose
 // failure is the reason of a branch, of the whole verification tree below it.
-func collectRejections(P *Program, fn *ssa.Function, depth int, seenFn map[*ssa.Function]bool, out *[]rejReason) int {
-	if fn == nil || fn.Blocks == nil || seenFn[fn] || depth > 6 {
+func collectRejections(P *Program, fn *ssa.Function, depth int, seenFn map[string]bool, out *[]rejReason) int {
+	if fn == nil || fn.Blocks == nil || depth > 6 {
 		return 0
 	}
-	seenFn[fn] = true
+	sk := fmt.Sprintf("%p", fn) + bindingSig(fn)
+	if seenFn[sk] {
+		return 0
+	}
+	seenFn[sk] = true
 	sp := rejectSpec{Fn: FuncKey(fn), Err: -1, Bool: -1}
 	res := fn.Signature.Results()
 	for i := 0; i < res.Len(); i++ {
@@ -113,7 +134,7 @@ func collectRejections(P *Program, fn *ssa.Function, depth int, seenFn map[*ssa.
 			}
 		}
 		for _, g := range cs {
-			collectRejections(P, g, depth+1, seenFn, out)
+			bindCall(c, g, func() { collectRejections(P, g, depth+1, seenFn, out) })
 		}
 		return true
 	}
@@ -219,7 +240,7 @@ func rejectionsRule(P *Program, R *Report, rule string, sp rejectSpec) {
 		return
 	}
 	var reasons []rejReason
-	collectRejections(P, fn, 0, map[*ssa.Function]bool{}, &reasons)
+	collectRejections(P, fn, 0, map[string]bool{}, &reasons)
 	type res struct {
 		ok        bool
 		text, pos string
@@ -324,7 +345,7 @@ func rejTable(tree string) map[string]bool {
 func treeReasons(P *Program, tree string) ([]rejReason, []string) {
 	var reasons []rejReason
 	var missing []string
-	seen := map[*ssa.Function]bool{}
+	seen := map[string]bool{}
 	for _, k := range rejTrees[tree] {
 		f := P.Func(k)
 		if f == nil {
